@@ -56,7 +56,8 @@ def _values(opnd, mode, prefix):
     if mode == "generic":
         return [Q.var(f"{prefix}{k}") for k in opnd["keys"]]
     if mode == "typed" and opnd.get("tvals"):
-        return S.decode_typed(opnd["tvals"])
+        from .. import values as V
+        return V.decode(opnd["tvals"])
     return [frac(v) for v in opnd["vals"]]
 
 
